@@ -25,6 +25,10 @@ import shutil
 import traceback
 
 VERIF = os.path.dirname(os.path.dirname(os.path.abspath(__file__)))
+# the tree under test; always /repo for the registered commands (VERIF_REPO is a development aid for scratch worktrees)
+REPO = os.path.realpath(os.environ.get("VERIF_REPO", "/repo"))
+if REPO != "/repo":
+    sys.path.insert(1, REPO)
 LEAN_DIR = os.path.join(VERIF, "lean")
 PY = "/venv/bin/python"
 sys.path.insert(0, VERIF)
@@ -169,7 +173,8 @@ def run_workers(prop: str, tier: str, seed: int, extra_args=None, budget=None):
         env["PGMPY_VERIF"] = "1"
         for k in ("OMP_NUM_THREADS", "MKL_NUM_THREADS", "OPENBLAS_NUM_THREADS", "NUMEXPR_NUM_THREADS"):
             env[k] = "1"
-        env["PYTHONPATH"] = VERIF + os.pathsep + env.get("PYTHONPATH", "")
+        env["PYTHONPATH"] = VERIF + os.pathsep + REPO + os.pathsep + env.get("PYTHONPATH", "")
+        env["VERIF_REPO"] = REPO
         cmd = [PY, "-m", "harness.worker", "--prop", prop, "--tier", tier, "--seed", str(seed),
                "--wid", str(wid), "--nworkers", str(len(hs)), "--out", out]
         if budget:
@@ -368,7 +373,8 @@ def main():
             "violations": violations,
         }
         os.makedirs(os.path.join(VERIF, "evidence"), exist_ok=True)
-        with open(os.path.join(VERIF, "evidence", f"{prop}.json"), "w") as f:
+        evname = f"{prop}.json" if REPO == "/repo" else f"{prop}.scratch.json"
+        with open(os.path.join(VERIF, "evidence", evname), "w") as f:
             json.dump(ev, f, indent=1, default=str)
         for l in lines:
             print(l)
